@@ -23,6 +23,7 @@ import (
 	"path/filepath"
 	"strconv"
 	"sync"
+	"time"
 
 	"github.com/nuetzliches/hookaido/verif/mcpx"
 )
@@ -185,8 +186,17 @@ func execShard(args []string) error {
 			continue
 		}
 		ev, err := x.Run(r)
-		if err != nil {
-			return err
+		if err != nil { // could not be executed (not an observation): once more, in a fresh environment
+			first := err.Error()
+			fmt.Fprintln(os.Stderr, "hkv-mcp: retrying after:", first)
+			time.Sleep(500 * time.Millisecond)
+			if ev, err = x.Run(r); err != nil {
+				return fmt.Errorf("%w (first attempt: %s)", err, first)
+			}
+			if len(first) > 200 {
+				first = first[:200]
+			}
+			ev.Retried = first
 		}
 		if err := enc.Encode(ev); err != nil {
 			return err
